@@ -29,7 +29,13 @@ func (m minDistance) negative() distance        { return minDistance(s1.Negative
 func (m minDistance) infinity() distance        { return minDistance(s1.InfChordAngle()) }
 func (m minDistance) less(other distance) bool  { return m.chordAngle() < other.chordAngle() }
 func (m minDistance) sub(other distance) distance {
-	return minDistance(m.chordAngle() - other.chordAngle())
+	// Subtract on the sphere (clamping at zero), not on the squared chord
+	// lengths: a plain float subtraction can go negative, which is not a
+	// valid distance.
+	if m.chordAngle().IsInfinity() || m.chordAngle() < 0 {
+		return m
+	}
+	return minDistance(m.chordAngle().Sub(other.chordAngle()))
 }
 func (m minDistance) chordAngleBound() s1.ChordAngle {
 	return m.chordAngle().Expanded(m.chordAngle().MaxAngleError())
